@@ -125,7 +125,8 @@ function getPrepareStackTrace (originalPrepareStackTrace) {
         if (stackTraceItem.isEval()) {
           const evalOrigin = stackTraceItem.getEvalOrigin()
           const evalRegex = /.*\(((?:.:[/\\]?)?[/\\].*):(\d*):(\d*)\)/g
-          const evalData = evalRegex.exec(evalOrigin)
+          // a file that was named relatively has no leading separator to look for
+          const evalData = evalRegex.exec(evalOrigin) || /.*\(([^()]+):(\d+):(\d+)\)/.exec(evalOrigin)
           if (evalData) {
             filename = evalData[1]
             originalLine = evalData[2]
